@@ -21,8 +21,9 @@ acknowledge layout — nothing is shared with the host-side models except `Bytes
 
 A device conforms (`Conforming dev view lim plan ms`) when, for every command it can decode
 that respects its limits, it executes the command on its memory and queues
-`plan txn` pending acknowledges followed by the acknowledge proper, and hands queued
-packets out one per bulk-in transfer.  What it does with other commands is unconstrained
+`plan txn` pending acknowledges followed by the acknowledge proper BEHIND whatever it had
+queued before (the bulk-in pipe is a FIFO: acknowledges the host did not fetch stay
+queued), and hands queued packets out one per bulk-in transfer.  What it does with other commands is unconstrained
 (the theorems show the host never sends them).
 -/
 import CamVerif.Model.Control
@@ -107,7 +108,7 @@ structure Conforming {σ : Type} (dev : Dev σ) (view : σ → View M) (lim : Li
     bytes.length ≤ lim.maxCmd → 12 + n ≤ lim.maxAck → a + n ≤ 2 ^ 64 →
     (dev.send st bytes).2 = none ∧
     (view (dev.send st bytes).1).mem = (view st).mem ∧
-    (view (dev.send st bytes).1).queue =
+    (view (dev.send st bytes).1).queue = (view st).queue ++
       answer (plan (view st).txn) id ms (readAck id (readRange (view st).mem a n)) ∧
     (view (dev.send st bytes).1).txn = (view st).txn + 1
   /-- WriteMem within the limits and the address space: data stored, answer queued. -/
@@ -116,7 +117,7 @@ structure Conforming {σ : Type} (dev : Dev σ) (view : σ → View M) (lim : Li
     bytes.length ≤ lim.maxCmd → 16 ≤ lim.maxAck → a + d.length ≤ 2 ^ 64 →
     (dev.send st bytes).2 = none ∧
     (view (dev.send st bytes).1).mem = writeRange (view st).mem a d ∧
-    (view (dev.send st bytes).1).queue =
+    (view (dev.send st bytes).1).queue = (view st).queue ++
       answer (plan (view st).txn) id ms (writeAck id d.length) ∧
     (view (dev.send st bytes).1).txn = (view st).txn + 1
   /-- A bulk-in transfer with a large enough buffer delivers the next queued packet. -/
@@ -146,35 +147,35 @@ executed) what exceeds its limits or the address space, does not answer garbage.
 def refDev (lim : Limits) (plan : Nat → Nat) (ms : Nat) : Dev (RefState M) where
   send st bytes :=
     match decodeCmd bytes with
-    | none => ({ st with queue := [], txn := st.txn + 1 }, none)
+    | none => ({ st with txn := st.txn + 1 }, none)
     | some f =>
       let k := plan st.txn
       let errAck (status : Nat) : Bytes := encodeAck status (cmdKindOf bytes ||| 1) f.requestId []
       if lim.maxCmd < bytes.length then
-        ({ st with queue := answer k f.requestId ms (errAck STATUS_INVALID_PARAMETER),
+        ({ st with queue := st.queue ++ answer k f.requestId ms (errAck STATUS_INVALID_PARAMETER),
                    txn := st.txn + 1 }, none)
       else
       match f.body with
       | .readMem a n =>
         if lim.maxAck < 12 + n then
-          ({ st with queue := answer k f.requestId ms (errAck STATUS_INVALID_PARAMETER),
+          ({ st with queue := st.queue ++ answer k f.requestId ms (errAck STATUS_INVALID_PARAMETER),
                      txn := st.txn + 1 }, none)
         else if 2 ^ 64 < a + n then
-          ({ st with queue := answer k f.requestId ms (errAck STATUS_INVALID_ADDRESS),
+          ({ st with queue := st.queue ++ answer k f.requestId ms (errAck STATUS_INVALID_ADDRESS),
                      txn := st.txn + 1 }, none)
         else
-          ({ st with queue := answer k f.requestId ms (readAck f.requestId (readRange st.mem a n)),
+          ({ st with queue := st.queue ++ answer k f.requestId ms (readAck f.requestId (readRange st.mem a n)),
                      txn := st.txn + 1 }, none)
       | .writeMem a d =>
         if 2 ^ 64 < a + d.length then
-          ({ st with queue := answer k f.requestId ms (errAck STATUS_INVALID_ADDRESS),
+          ({ st with queue := st.queue ++ answer k f.requestId ms (errAck STATUS_INVALID_ADDRESS),
                      txn := st.txn + 1 }, none)
         else
           ({ mem := writeRange st.mem a d,
-             queue := answer k f.requestId ms (writeAck f.requestId d.length),
+             queue := st.queue ++ answer k f.requestId ms (writeAck f.requestId d.length),
              txn := st.txn + 1 }, none)
       | _ =>
-        ({ st with queue := answer k f.requestId ms (errAck STATUS_NOT_IMPLEMENTED),
+        ({ st with queue := st.queue ++ answer k f.requestId ms (errAck STATUS_NOT_IMPLEMENTED),
                    txn := st.txn + 1 }, none)
   recv st bufLen :=
     match st.queue with
